@@ -82,17 +82,27 @@ Section Nest.
         end
     end.
 
-  (** Polygon.initNested: the resulting loop order with depths *)
-  Definition init_nested (ids : list nat) : list (nat * nat) :=
+  (** Polygon.initOneLoop, the single-loop path of initNested. The *Loop handed to
+      PolygonFromLoops carries whatever depth an earlier polygon (or Decode) stored in it:
+        p.hasHoles = false ... // Ensure the loops depth is set correctly.
+        p.loops[0].depth = 0
+      [stored_depth] is that stale field; the assignment overwrites it. *)
+  Definition init_one_loop (stored_depth : nat) : nat := 0.
+
+  (** Polygon.initNested: the resulting loop order with depths. [stored l] is the depth field of
+      input loop l before the call. In the multi-loop path initLoops assigns child.depth when it
+      pushes the child and reads it back when it pops it (carried on the stack here), so the
+      stored depths are never read there. *)
+  Definition init_nested (stored : nat -> nat) (ids : list nat) : list (nat * nat) :=
     match ids with
-    | [x] => [(x, 0)]                                     (* initOneLoop *)
+    | [x] => [(x, init_one_loop (stored x))]
     | _ => init_loops (S (S (length ids))) (insert_all ids) [(None, 0)] []
     end.
 
   (** the same through the recursive specification of initLoops *)
-  Definition init_nested_spec (ids : list nat) : list (nat * nat) :=
+  Definition init_nested_spec (stored : nat -> nat) (ids : list nat) : list (nat * nat) :=
     match ids with
-    | [x] => [(x, 0)]
+    | [x] => [(x, init_one_loop (stored x))]
     | _ => let lm := insert_all ids in preorder (S (length ids)) lm 0 (lm None)
     end.
 
